@@ -6,6 +6,7 @@ set -u
 OUT="$1"; ID="$2"; DEMODIR="$3"; PKG="$4"; RUN="$5"
 source /verif/bin/env.sh
 BASE=$(git -C /repo rev-list --max-parents=0 HEAD | tail -1)
+[ -f "$OUT/../BASE" ] && BASE=$(cat "$OUT/../BASE")
 WT=/tmp/confirm/$ID
 rm -rf "$WT"; mkdir -p /tmp/confirm
 git -C /repo worktree add --detach "$WT" "$BASE" >/dev/null 2>&1 || { echo "worktree failed"; exit 9; }
@@ -36,4 +37,5 @@ cp "$OUT"/demo/*.go /verif/seeded/$ID/demo/
 for f in /verif/seeded/$ID/demo/*.go; do mv "$f" "$f.txt"; done   # keep them out of any go build
 cp "$OUT/NOTES.md" /verif/seeded/$ID/NOTES.md 2>/dev/null
 cp $LOG /verif/seeded/$ID/confirm.log
+echo "$BASE" > /verif/seeded/$ID/BASE
 echo "CONFIRMED $ID"
